@@ -168,5 +168,10 @@ def _xarray_dataset(
     ds = xr.merge(to_merge, compat="override")
     for name in single_output_names:
         array = data_loader(name)
-        ds[name] = array if isinstance(array, np.ndarray) else ((), array)
+        if isinstance(array, np.ndarray) and array.ndim > 1:
+            # xarray cannot name the dimensions of a bare n-D array itself
+            dims = tuple(f"{name}_dim_{i}" for i in range(array.ndim))
+            ds[name] = (dims, array)
+        else:
+            ds[name] = array if isinstance(array, np.ndarray) else ((), array)
     return ds
